@@ -466,6 +466,20 @@ pub fn c12(tier: &str, seed: u64) -> Vec<Case> {
                 if let Ok(b) = p.build_bytes_vec() { inputs.push((b, "large-txt".to_string())); }
             }
         }
+        // many short strings whose keys differ only in letter case, between other keys, in no particular order (what
+        // a comparison or a hash that looks at the attribute keys meets): two such records in one message
+        for &n in &[21usize, 22, 24, 33, 40, 64, 100, 200] {
+            for rep in 0..(if thorough { 6 } else { 2 }) {
+                let pool: [&[u8]; 20] = [b"k=1", b"K=2", b"a=", b"B", b"b=x", b"A", b"kk=", b"Kk=1", b"kK", b"zz=9", b"m", b"M=", b"Zz", b"z", b"=x", b"", b"ab=1", b"aB=2", b"Ab", b"AB=3"];
+                let mut p = Packet::new_reply(6);
+                for which in 0..2 {
+                    let mut t = rdata::TXT::new();
+                    for k in 0..n { t.add_char_string(crate::gen::mk_cs(pool[if rep == 0 && which == 0 { (k * 7 + k / 3) % pool.len() } else { r.below(pool.len() as u64) as usize }])); }
+                    p.answers.push(ResourceRecord::new(Name::new_unchecked("t"), CLASS::IN, which, RData::TXT(t)));
+                }
+                if let Ok(b) = p.build_bytes_vec() { inputs.push((b, "txt-case-keys".to_string())); }
+            }
+        }
         for size in [3000usize, 20000, 65000] {
             let blob = r.bytes(size);
             for rd in [RData::NULL(10, rdata::NULL::new(&blob).unwrap()).into_owned(), RData::NULL(65280, rdata::NULL::new(&blob).unwrap()).into_owned(),
